@@ -293,6 +293,12 @@ def check_metrics(ctx, idx):
 
 
 def run(ctx: C.Ctx):
+    from .. import shapes_static, translate_metrics
+    shapes_static.run_with_translation(ctx, translate_metrics, "Metrics", "metric-definition", lambda: _run(ctx),
+                                       "regenerated from SSPOR.score / reconstruction_error / utils.relative_reconstruction_error / utils.determinant")
+
+
+def _run(ctx: C.Ctx):
     rng = ctx.rng
     for idx in range(ctx.scale(120, 2000)):
         fm = recon.gen_model(ctx, rng, want_tall=rng.random() < 0.8)
